@@ -302,7 +302,7 @@ keyify(const std::string& s)
       else if (!o.empty() && o.back() != '_')
         o += '_';
     }
-  return o.substr(0, 90);
+  return o.substr(0, 150);
 }
 
 // capture STIR warnings (used to learn the start keyword of a parser)
@@ -855,9 +855,9 @@ all_classes()
 // =====================================================================================================================
 // a KeyParser-derived test parser with keys of every public kind
 // =====================================================================================================================
-class TestParser : public KeyParser
+// plain state of the test parser: also used as the reference model in "keywords" mode
+struct KPState
 {
-public:
   int i_v = -7;
   unsigned int u_v = 7;
   long l_v = -70;
@@ -877,6 +877,66 @@ public:
   std::vector<unsigned long> vul_v;
   std::vector<std::vector<int>> vli_v;
   int choice = 0;
+  std::string shape_name = "none";
+
+  void resize_all()
+  {
+    vi_v.resize(n_items);
+    vd_v.resize(n_items);
+    vf_v.resize(n_items);
+    vs_v.resize(n_items);
+    vul_v.resize(n_items);
+    vli_v.resize(n_items);
+  }
+  // vectors sized as announced
+  bool sizes_consistent() const
+  {
+    const size_t n = static_cast<size_t>(n_items);
+    return n_items >= 0 && vi_v.size() == n && vd_v.size() == n && vf_v.size() == n && vs_v.size() == n && vul_v.size() == n && vli_v.size() == n;
+  }
+  std::string state_of_fields() const
+  {
+    std::ostringstream s;
+    s << std::setprecision(9) << "i=" << i_v << ";u=" << u_v << ";l=" << l_v << ";ul=" << ul_v << ";f=" << f_v << ";d=" << d_v << ";b=" << b_v
+      << ";s=" << s_v << ";li=";
+    for (int x : li_v)
+      s << x << ",";
+    s << ";ld=";
+    for (double x : ld_v)
+      s << x << ",";
+    s << ";ls=";
+    for (auto& x : ls_v)
+      s << x << "|";
+    s << ";n=" << n_items << ";vi=";
+    for (int x : vi_v)
+      s << x << ",";
+    s << ";vd=";
+    for (double x : vd_v)
+      s << x << ",";
+    s << ";vf=";
+    for (float x : vf_v)
+      s << x << ",";
+    s << ";vs=";
+    for (auto& x : vs_v)
+      s << x << "|";
+    s << ";vul=";
+    for (auto x : vul_v)
+      s << x << ",";
+    s << ";vli=";
+    for (auto& l : vli_v)
+      {
+        for (int x : l)
+          s << x << ",";
+        s << "/";
+      }
+    s << ";choice=" << choice << ";shape=" << shape_name;
+    return s.str();
+  }
+};
+
+class TestParser : public KeyParser, public KPState
+{
+public:
   ASCIIlist_type choices;
   Array<2, float> a2;
   BasicCoordinate<3, float> c3;
@@ -918,15 +978,6 @@ public:
     add_parsing_key("shape type", &shape);
     ignore_key("ignored key");
   }
-  void resize_all()
-  {
-    vi_v.resize(n_items);
-    vd_v.resize(n_items);
-    vf_v.resize(n_items);
-    vs_v.resize(n_items);
-    vul_v.resize(n_items);
-    vli_v.resize(n_items);
-  }
   void read_num_items()
   {
     set_variable();
@@ -934,49 +985,10 @@ public:
       error("TestParser: number of items out of the supported range");
     resize_all();
   }
-  // vectors sized as announced
-  bool sizes_consistent() const
+  std::string state()
   {
-    const size_t n = static_cast<size_t>(n_items);
-    return n_items >= 0 && vi_v.size() == n && vd_v.size() == n && vf_v.size() == n && vs_v.size() == n && vul_v.size() == n && vli_v.size() == n;
-  }
-  std::string state() const
-  {
-    std::ostringstream s;
-    s << std::setprecision(9) << "i=" << i_v << ";u=" << u_v << ";l=" << l_v << ";ul=" << ul_v << ";f=" << f_v << ";d=" << d_v << ";b=" << b_v
-      << ";s=" << s_v << ";li=";
-    for (int x : li_v)
-      s << x << ",";
-    s << ";ld=";
-    for (double x : ld_v)
-      s << x << ",";
-    s << ";ls=";
-    for (auto& x : ls_v)
-      s << x << "|";
-    s << ";n=" << n_items << ";vi=";
-    for (int x : vi_v)
-      s << x << ",";
-    s << ";vd=";
-    for (double x : vd_v)
-      s << x << ",";
-    s << ";vf=";
-    for (float x : vf_v)
-      s << x << ",";
-    s << ";vs=";
-    for (auto& x : vs_v)
-      s << x << "|";
-    s << ";vul=";
-    for (auto x : vul_v)
-      s << x << ",";
-    s << ";vli=";
-    for (auto& l : vli_v)
-      {
-        for (int x : l)
-          s << x << ",";
-        s << "/";
-      }
-    s << ";choice=" << choice << ";shape=" << (shape ? shape->get_registered_name() : std::string("none"));
-    return s.str();
+    shape_name = shape ? shape->get_registered_name() : std::string("none");
+    return state_of_fields();
   }
 };
 
@@ -1455,7 +1467,11 @@ text_diff(const std::string& a, const std::string& b, bool& only_numeric_jitter)
       if (x == y)
         continue;
       if (first.empty())
-        first = "line " + std::to_string(i + 1) + ": first print '" + clip(x, 300) + "' vs second print '" + clip(y, 300) + "'";
+        {
+          first = "line " + std::to_string(i + 1) + ": first print '" + clip(x, 300) + "' vs second print '" + clip(y, 300) + "'\n--- lines around it, first print | second print:";
+          for (size_t k = (i >= 6 ? i - 6 : 0); k < std::min(std::max(la.size(), lb.size()), i + 5); ++k)
+            first += "\n" + std::to_string(k + 1) + ": " + clip(k < la.size() ? la[k] : "<missing>", 120) + "   |   " + clip(k < lb.size() ? lb[k] : "<missing>", 120);
+        }
       RefLine rx = ref_split(x), ry = ref_split(y);
       bool ix, iy;
       if (rx.is_assignment && ry.is_assignment && rx.kw == ry.kw && is_number_token(rx.value, ix) && is_number_token(ry.value, iy))
@@ -2357,3 +2373,927 @@ mutate(const Seed& seed, vf::Rng& rng)
   return m;
 }
 } // namespace
+
+// =====================================================================================================================
+// case drivers
+// =====================================================================================================================
+namespace {
+
+std::string
+hex_hash(const std::string& s)
+{
+  return vf::fmt("%016llx", static_cast<unsigned long long>(vf::hash_str(s)));
+}
+
+// copy the outcome of an isolated run into the case context
+void
+report(Ctx& ctx, const Result& r, const std::string& input_text, const std::string& what)
+{
+  for (auto& v : r.viols)
+    ctx.violation(v.first, r.complete ? v.second : v.second + "\n--- input (" + what + ", " + std::to_string(input_text.size()) + " bytes):\n" + clip(input_text));
+  for (auto& c : r.counts)
+    ctx.count(c.first, c.second);
+}
+
+// ---- parameter texts of default-constructed registered objects (family "par"), computed lazily in an isolated child
+std::map<int, Seed> g_par_seeds;
+std::map<int, std::string> g_par_why;
+
+const Seed*
+par_seed(Ctx& ctx, int cls)
+{
+  auto it = g_par_seeds.find(cls);
+  if (it == g_par_seeds.end())
+    {
+      const RegClass& c = all_classes()[static_cast<size_t>(cls)];
+      Result r = g_iso.run(ctx, "read_registered_object(start keyword only)", "default object of " + c.id(), [&](Result& rr) {
+        std::string why;
+        rr.text = default_parameter_info(c, why);
+        rr.how = why;
+        rr.status = rr.text.empty() ? 3 : 1;
+      });
+      Seed s;
+      s.name = "par:" + c.id();
+      s.family = "par";
+      s.ext = ".par";
+      s.cls = cls;
+      if (r.complete)
+        {
+          s.text = r.text;
+          g_par_why[cls] = r.how;
+        }
+      else
+        {
+          // parsing nothing but the start keyword killed the process
+          report(ctx, r, "<start keyword of " + c.id() + "> :=", "default object");
+          g_par_why[cls] = "crash";
+        }
+      it = g_par_seeds.emplace(cls, s).first;
+    }
+  return it->second.text.empty() ? nullptr : &it->second;
+}
+
+// ---- signature of the object an entry point makes of the unchanged seed
+std::map<std::pair<const Seed*, int>, std::pair<int, std::string>> g_seed_sig;
+
+std::string
+input_path(const Seed& seed)
+{
+  return g_corpus.dir + "/in_" + std::to_string(::getpid()) + seed.ext;
+}
+
+const std::pair<int, std::string>&
+seed_signature(Ctx& ctx, const Seed& seed, int variant)
+{
+  const auto k = std::make_pair(&seed, variant);
+  auto it = g_seed_sig.find(k);
+  if (it != g_seed_sig.end())
+    return it->second;
+  Input in;
+  in.seed = &seed;
+  in.text = seed.text;
+  in.kinds = "none";
+  in.entry_variant = variant;
+  in.cls = seed.cls;
+  in.path = input_path(seed);
+  spit(in.path, in.text);
+  const std::string entry = entry_name(seed.family, variant);
+  Result r = g_iso.run(ctx, entry, "unchanged seed " + seed.name + " through " + entry, [&](Result& rr) {
+    std::string sig;
+    run_entry(rr, in, sig);
+    rr.text = sig;
+  });
+  report_alloc(r, entry, in);
+  report(ctx, r, in.text, "unchanged seed " + seed.name);
+  return g_seed_sig.emplace(k, std::make_pair(r.complete ? r.status : 2, r.text)).first->second;
+}
+
+const Seed*
+pick_seed(Ctx& ctx, const std::vector<std::pair<std::string, int>>& weights)
+{
+  int total = 0;
+  for (auto& w : weights)
+    total += w.second;
+  for (int attempt = 0; attempt < 8; ++attempt)
+    {
+      long x = ctx.rng.range(0, total - 1);
+      std::string fam;
+      for (auto& w : weights)
+        {
+          if (x < w.second)
+            {
+              fam = w.first;
+              break;
+            }
+          x -= w.second;
+        }
+      if (fam == "par")
+        {
+          const int cls = static_cast<int>(ctx.rng.range(0, static_cast<long>(all_classes().size()) - 1));
+          const Seed* s = par_seed(ctx, cls);
+          if (s)
+            return s;
+          continue;
+        }
+      auto it = g_corpus.by_family.find(fam);
+      if (it == g_corpus.by_family.end() || it->second.empty())
+        continue;
+      return &g_corpus.seeds[static_cast<size_t>(ctx.rng.pick(it->second))];
+    }
+  return &g_corpus.seeds[static_cast<size_t>(g_corpus.by_family["kp"][0])];
+}
+
+// =====================================================================================================================
+// mode "mutate": one mutated input through one entry point
+// =====================================================================================================================
+void
+run_mutate_case(Ctx& ctx)
+{
+  build_corpus(ctx);
+  static const std::vector<std::pair<std::string, int>> weights
+      = { { "image", 20 }, { "dynimage", 8 }, { "pdfs", 26 }, { "spect", 8 }, { "siemens", 8 }, { "multi", 5 }, { "kp", 12 }, { "par", 13 } };
+  const Seed& seed = *pick_seed(ctx, weights);
+  const Mutated m = mutate(seed, ctx.rng);
+  Input in;
+  in.seed = &seed;
+  in.text = m.text;
+  in.kinds = m.kinds.empty() ? std::string("none") : m.kinds;
+  in.culprit = m.culprit;
+  in.same_as_seed = m.same;
+  in.cls = seed.cls;
+  in.entry_variant = static_cast<int>(ctx.rng.range(0, num_entry_variants(seed.family) - 1));
+  in.path = input_path(seed);
+  const std::string entry = entry_name(seed.family, in.entry_variant);
+  ctx.desc.add("mode", "mutate").add("family", seed.family).add("seed", seed.name).add("entry", entry).add("mutation", in.kinds);
+  ctx.desc.add("changed_key", in.culprit).add("input_bytes", static_cast<long>(in.text.size())).add("input_hash", hex_hash(in.text));
+  std::pair<int, std::string> ref(0, std::string());
+  if (in.same_as_seed)
+    ref = seed_signature(ctx, seed, in.entry_variant);
+  spit(in.path, in.text);
+  Result r = g_iso.run(ctx, entry, seed.name + " [" + in.kinds + "] through " + entry, [&](Result& rr) {
+    std::string sig;
+    run_entry(rr, in, sig);
+    rr.text = sig;
+  });
+  report_alloc(r, entry, in);
+  report(ctx, r, in.text, "mutation " + in.kinds + " of " + seed.name);
+  ctx.nontrivial = true;
+  ctx.count("mutated_inputs");
+  ctx.count("inputs_" + seed.family);
+  ctx.count("entry_" + keyify(entry));
+  {
+    // per mutation kind
+    size_t b = 0;
+    while (b <= in.kinds.size())
+      {
+        size_t e = in.kinds.find('+', b);
+        if (e == std::string::npos)
+          e = in.kinds.size();
+        ctx.count("mutation_" + in.kinds.substr(b, e - b));
+        b = e + 1;
+      }
+  }
+  if (!r.complete)
+    ctx.count(r.viols.empty() ? "children_died_not_attributable" : "children_died");
+  else if (r.status == 1)
+    ctx.count("inputs_accepted_and_consistent");
+  else if (r.status == 0)
+    ctx.count("inputs_rejected");
+  if (r.max_alloc > (64u << 20))
+    ctx.count("inputs_requesting_more_than_64MiB_at_once");
+  if (in.same_as_seed && r.complete && r.viols.empty() && ref.first == 1)
+    {
+      ctx.count("equivalent_respellings_compared");
+      if (r.status != 1)
+        ctx.violation("keyword-respelling-rejected:" + entry + ":" + seed.family,
+                      "the seed is accepted, the same text with keywords respelled (case, white space from {space,tab,_,!}) is not (" + r.how + ")\n--- input:\n"
+                          + clip(in.text));
+      else if (r.text != ref.second)
+        ctx.violation("keyword-respelling-changes-result:" + entry + ":" + seed.family,
+                      "seed gives " + clip(ref.second, 500) + "\nrespelled text gives " + clip(r.text, 500) + "\n--- input:\n" + clip(in.text));
+    }
+}
+
+// =====================================================================================================================
+// mode "roundtrip": print -> parse -> print for every registered class (default object, then perturbed values)
+// =====================================================================================================================
+std::string
+perturb_values(const std::string& text, vf::Rng& rng, int& changed)
+{
+  auto lines = split_lines(text);
+  changed = 0;
+  for (auto& l : lines)
+    {
+      RefLine r = ref_split(l);
+      bool isint = false;
+      if (!r.is_assignment || !is_number_token(r.value, isint) || !rng.coin(0.35))
+        continue;
+      const double x = std::atof(r.value.c_str());
+      if (!std::isfinite(x) || std::fabs(x) > 1e6)
+        continue;
+      std::ostringstream s;
+      if (isint)
+        {
+          const long xi = static_cast<long>(x);
+          const int how = static_cast<int>(rng.range(0, 4));
+          s << (how == 0 ? xi + 1 : how == 1 ? xi - 1 : how == 2 ? xi * 2 : how == 3 ? (xi == 0 ? 1 : 0) : xi + 3);
+        }
+      else
+        {
+          const int how = static_cast<int>(rng.range(0, 3));
+          s << std::setprecision(6) << (how == 0 ? x + 0.5 : how == 1 ? x * 2 : how == 2 ? x * 0.5 : x + 1.25);
+        }
+      l = l.substr(0, r.value_begin) + " " + s.str();
+      ++changed;
+    }
+  return join_lines(lines);
+}
+
+void
+run_roundtrip_case(Ctx& ctx, long sub)
+{
+  const auto& classes = all_classes();
+  const long ncls = static_cast<long>(classes.size());
+  const int cls = static_cast<int>(sub % ncls);
+  const long variant = sub / ncls;
+  const RegClass& c = classes[static_cast<size_t>(cls)];
+  ctx.desc.add("mode", "roundtrip").add("class", c.id()).add("variant", variant == 0 ? std::string("default object") : "perturbed values #" + std::to_string(variant));
+  const Seed* s = par_seed(ctx, cls);
+  if (variant == 0)
+    ctx.count("registered_classes_enumerated");
+  if (!s)
+    {
+      ctx.desc.add("not_constructible_because", g_par_why[cls]);
+      if (variant == 0)
+        ctx.count("registered_classes_not_default_constructible");
+      ctx.count("roundtrip_skipped_" + keyify(g_par_why[cls]));
+      return;
+    }
+  std::string text = s->text;
+  std::string what = "default object";
+  if (variant > 0)
+    {
+      int changed = 0;
+      text = perturb_values(text, ctx.rng, changed);
+      if (ctx.rng.coin(0.5))
+        text = decorate_text(text, ctx.rng);
+      ctx.desc.add("values_changed", changed).add("input_hash", hex_hash(text));
+      what = "object parsed from its default text with " + std::to_string(changed) + " numeric values changed";
+    }
+  Result r = g_iso.run(ctx, "read_registered_object", "round trip of " + c.id(), [&](Result& rr) {
+    AllocScope guard;
+    std::string printed = text;
+    if (variant > 0)
+      {
+        std::istringstream in(text);
+        std::unique_ptr<RegisteredObjectBase> obj;
+        try
+          {
+            obj.reset(c.read(&in, c.name));
+          }
+        catch (const std::exception&)
+          {}
+        if (!obj)
+          {
+            rr.status = 0;
+            rr.how = "perturbed text rejected";
+            rr.count("roundtrip_perturbed_texts_rejected");
+            return;
+          }
+        printed = obj->parameter_info();
+      }
+    rr.status = 1;
+    check_fixed_point(rr, c, printed, what);
+    rr.count("roundtrip_fixed_points_checked");
+    rr.count("roundtrip_lines_compared", static_cast<long>(split_lines(printed).size()));
+  });
+  report(ctx, r, text, what + " of " + c.id());
+  if (variant == 0)
+    ctx.count("registered_classes_round_tripped");
+  ctx.nontrivial = r.counts.count("roundtrip_fixed_points_checked") > 0 || !r.viols.empty();
+}
+
+// =====================================================================================================================
+// mode "keywords": (A) TestParser against a reference model, (B) the keyword normaliser, (C) equivalent Interfile headers
+// =====================================================================================================================
+struct KwLine
+{
+  std::string text;
+  std::function<void(KPState&)> apply; // effect on the reference model (empty: none)
+};
+
+std::string
+num_text(double v)
+{
+  std::ostringstream s;
+  s << std::setprecision(15) << v;
+  return s.str();
+}
+std::string
+random_words(vf::Rng& rng, int max_words)
+{
+  static const std::vector<std::string> w = { "alpha", "Beta", "x1", "file.hv", "a-b", "(mm)", "3d", "Z", "value" };
+  std::string s;
+  const int n = static_cast<int>(rng.range(1, max_words));
+  for (int i = 0; i < n; ++i)
+    s += (i ? " " : "") + rng.pick(w);
+  return s;
+}
+// "keyword[index] := value" with the keyword respelled in a documented-equivalent way
+std::string
+kw_line(const std::string& kw, const std::string& index, const std::string& value, vf::Rng& rng)
+{
+  std::string l = rng.coin(0.8) ? decorate_keyword(kw, rng) : kw;
+  if (!index.empty())
+    l += "[" + index + "]";
+  l += rng.coin(0.5) ? " := " : (rng.coin(0.5) ? ":=" : "  :=\t");
+  return l + value;
+}
+
+KwLine
+random_valid_line(vf::Rng& rng, const KPState& model)
+{
+  KwLine k;
+  const int n = model.n_items;
+  for (;;)
+    {
+      const int what = static_cast<int>(rng.range(0, 21));
+      switch (what)
+        {
+          case 0: {
+            const int v = static_cast<int>(rng.range(-100000, 100000));
+            static const std::vector<std::string> names = { "int value", "integer value", "old int value" };
+            k.text = kw_line(rng.pick(names), "", std::to_string(v), rng);
+            k.apply = [v](KPState& m) { m.i_v = v; };
+            return k;
+          }
+          case 1: {
+            const unsigned v = static_cast<unsigned>(rng.range(0, 4000000000L));
+            k.text = kw_line("unsigned value", "", std::to_string(v), rng);
+            k.apply = [v](KPState& m) { m.u_v = v; };
+            return k;
+          }
+          case 2: {
+            const long v = rng.range(-1000000000000L, 1000000000000L);
+            k.text = kw_line("long value", "", std::to_string(v), rng);
+            k.apply = [v](KPState& m) { m.l_v = v; };
+            return k;
+          }
+          case 3: {
+            const unsigned long v = static_cast<unsigned long>(rng.range(0, 9000000000000L));
+            k.text = kw_line("unsigned long value", "", std::to_string(v), rng);
+            k.apply = [v](KPState& m) { m.ul_v = v; };
+            return k;
+          }
+          case 4: {
+            const float v = 0.25f * static_cast<float>(rng.range(-4000, 4000));
+            k.text = kw_line("float value", "", num_text(v), rng);
+            k.apply = [v](KPState& m) { m.f_v = v; };
+            return k;
+          }
+          case 5: {
+            const double v = 0.125 * static_cast<double>(rng.range(-80000, 80000));
+            k.text = kw_line("double value", "", num_text(v), rng);
+            k.apply = [v](KPState& m) { m.d_v = v; };
+            return k;
+          }
+          case 6: {
+            const bool v = rng.coin();
+            k.text = kw_line("bool value", "", v ? "1" : "0", rng);
+            k.apply = [v](KPState& m) { m.b_v = v; };
+            return k;
+          }
+          case 7: {
+            const std::string v = random_words(rng, 3);
+            k.text = kw_line("string value", "", v, rng);
+            k.apply = [v](KPState& m) { m.s_v = v; };
+            return k;
+          }
+          case 8: {
+            std::vector<int> v;
+            std::string t = "{";
+            const int len = static_cast<int>(rng.range(1, 4));
+            for (int i = 0; i < len; ++i)
+              {
+                v.push_back(static_cast<int>(rng.range(-50, 50)));
+                t += (i ? ", " : "") + std::to_string(v.back());
+              }
+            t += "}";
+            k.text = kw_line("list of ints", "", t, rng);
+            k.apply = [v](KPState& m) { m.li_v = v; };
+            return k;
+          }
+          case 9: {
+            std::vector<double> v;
+            std::string t = "{";
+            const int len = static_cast<int>(rng.range(1, 4));
+            for (int i = 0; i < len; ++i)
+              {
+                v.push_back(0.5 * static_cast<double>(rng.range(-50, 50)));
+                t += (i ? "," : "") + num_text(v.back());
+              }
+            t += "}";
+            k.text = kw_line("list of doubles", "", t, rng);
+            k.apply = [v](KPState& m) { m.ld_v = v; };
+            return k;
+          }
+          case 10: {
+            std::vector<std::string> v;
+            std::string t = "{";
+            const int len = static_cast<int>(rng.range(1, 3));
+            for (int i = 0; i < len; ++i)
+              {
+                v.push_back(random_words(rng, 2));
+                t += (i ? ", " : "") + v.back();
+              }
+            t += "}";
+            k.text = kw_line("list of strings", "", t, rng);
+            k.apply = [v](KPState& m) { m.ls_v = v; };
+            return k;
+          }
+          case 11: {
+            const int v = static_cast<int>(rng.range(0, 6));
+            k.text = kw_line("number of items", "", std::to_string(v), rng);
+            k.apply = [v](KPState& m) {
+              m.n_items = v;
+              m.resize_all();
+            };
+            return k;
+          }
+        case 12:
+          case 13: {
+            if (n < 1)
+              break;
+            const int idx = static_cast<int>(rng.range(1, n));
+            const int v = static_cast<int>(rng.range(-1000, 1000));
+            k.text = kw_line(rng.coin(0.3) ? "item integer" : "item int", std::to_string(idx), std::to_string(v), rng);
+            k.apply = [idx, v](KPState& m) { m.vi_v[static_cast<size_t>(idx - 1)] = v; };
+            return k;
+          }
+          case 14: {
+            if (n < 1)
+              break;
+            const int idx = static_cast<int>(rng.range(1, n));
+            const double v = 0.125 * static_cast<double>(rng.range(-8000, 8000));
+            k.text = kw_line("item double", std::to_string(idx), num_text(v), rng);
+            k.apply = [idx, v](KPState& m) { m.vd_v[static_cast<size_t>(idx - 1)] = v; };
+            return k;
+          }
+          case 15: {
+            if (n < 1)
+              break;
+            const int idx = static_cast<int>(rng.range(1, n));
+            const float v = 0.25f * static_cast<float>(rng.range(-4000, 4000));
+            k.text = kw_line("item float", std::to_string(idx), num_text(v), rng);
+            k.apply = [idx, v](KPState& m) { m.vf_v[static_cast<size_t>(idx - 1)] = v; };
+            return k;
+          }
+          case 16: {
+            if (n < 1)
+              break;
+            const int idx = static_cast<int>(rng.range(1, n));
+            const std::string v = random_words(rng, 3);
+            k.text = kw_line("item string", std::to_string(idx), v, rng);
+            k.apply = [idx, v](KPState& m) { m.vs_v[static_cast<size_t>(idx - 1)] = v; };
+            return k;
+          }
+          case 17: {
+            if (n < 1)
+              break;
+            const int idx = static_cast<int>(rng.range(1, n));
+            const unsigned long v = static_cast<unsigned long>(rng.range(0, 9000000000000L));
+            k.text = kw_line("item ulong", std::to_string(idx), std::to_string(v), rng);
+            k.apply = [idx, v](KPState& m) { m.vul_v[static_cast<size_t>(idx - 1)] = v; };
+            return k;
+          }
+          case 18: {
+            if (n < 1)
+              break;
+            const int idx = static_cast<int>(rng.range(1, n));
+            std::vector<int> v;
+            std::string t = "{";
+            const int len = static_cast<int>(rng.range(1, 3));
+            for (int i = 0; i < len; ++i)
+              {
+                v.push_back(static_cast<int>(rng.range(-50, 50)));
+                t += (i ? "," : "") + std::to_string(v.back());
+              }
+            t += "}";
+            k.text = kw_line("item list", std::to_string(idx), t, rng);
+            k.apply = [idx, v](KPState& m) { m.vli_v[static_cast<size_t>(idx - 1)] = v; };
+            return k;
+          }
+          case 19: {
+            static const std::vector<std::string> ch = { "alpha", "beta gamma", "Delta", "no such choice" };
+            const int v = static_cast<int>(rng.range(0, 3));
+            // the value is matched with the same normalisation as keywords (documented at find_in_ASCIIlist)
+            k.text = kw_line("choice", "", v < 3 && rng.coin(0.5) ? decorate_keyword(ch[static_cast<size_t>(v)], rng) : ch[static_cast<size_t>(v)], rng);
+            k.apply = [v](KPState& m) { m.choice = v < 3 ? v : -1; };
+            return k;
+          }
+          case 20: {
+            // keywords that must not match anything: state unchanged
+            static const std::vector<std::string> unk = { "intvalue", "int value extra", "unknown key", "item", "value int", "int", "number of item", "list of int" };
+            k.text = kw_line(rng.pick(unk), rng.coin(0.2) ? "1" : "", "5", rng);
+            return k;
+          }
+          default: {
+            const int how = static_cast<int>(rng.range(0, 2));
+            k.text = how == 0 ? std::string("; int value := 77") : how == 1 ? std::string("") : kw_line("ignored key", "", random_words(rng, 2), rng);
+            return k;
+          }
+        }
+    }
+}
+
+// first ';'-separated field in which two state strings differ
+std::string
+first_differing_field(const std::string& a, const std::string& b)
+{
+  size_t pa = 0, pb = 0;
+  while (pa < a.size() || pb < b.size())
+    {
+      size_t ea = a.find(';', pa), eb = b.find(';', pb);
+      if (ea == std::string::npos)
+        ea = a.size();
+      if (eb == std::string::npos)
+        eb = b.size();
+      const std::string fa = a.substr(pa, ea - pa), fb = b.substr(pb, eb - pb);
+      if (fa != fb)
+        return fa.substr(0, fa.find('='));
+      pa = ea + 1;
+      pb = eb + 1;
+    }
+  return "none";
+}
+
+void
+keywords_testparser(Ctx& ctx)
+{
+  vf::Rng& rng = ctx.rng;
+  KPState model;
+  model.resize_all();
+  std::vector<std::string> lines;
+  lines.push_back(kw_line("test parameters", "", "", rng));
+  const int nops = static_cast<int>(rng.range(3, 25));
+  // at most one line with an index the parser cannot honour
+  const bool with_bad = rng.coin(0.35);
+  const int bad_at = with_bad ? static_cast<int>(rng.range(0, nops - 1)) : -1;
+  std::string bad_kind, bad_line;
+  bool shape_done = false;
+  long respelled = 0, indexed = 0, aliases = 0;
+  for (int i = 0; i < nops; ++i)
+    {
+      if (i == bad_at)
+        {
+          const int n = model.n_items;
+          const int how = static_cast<int>(rng.range(0, 3));
+          static const std::vector<std::string> vk = { "item int", "item integer", "item double", "item float", "item string", "item ulong", "item list" };
+          static const std::vector<std::string> sk = { "int value", "float value", "string value", "list of ints", "bool value" };
+          const std::string key = rng.pick(vk);
+          const std::string val = key == "item list" ? "{1,2}" : key == "item string" ? "abc" : "9";
+          if (how == 0)
+            {
+              static const std::vector<long> beyond = { 1, 2, 3, 10, 100, 5000, 65536, 1000000, 2147483647L - 6 };
+              bad_kind = "index-beyond-size";
+              bad_line = kw_line(key, std::to_string(n + rng.pick(beyond)), val, rng);
+            }
+          else if (how == 1)
+            {
+              static const std::vector<std::string> low = { "0", "-1", "-2", "-2147483648" };
+              bad_kind = "index-below-one";
+              bad_line = kw_line(key, rng.pick(low), val, rng);
+            }
+          else if (how == 2)
+            {
+              bad_kind = "index-on-scalar-key";
+              const std::string sks = rng.pick(sk);
+              bad_line = kw_line(sks, std::to_string(rng.range(1, 3)), sks == "list of ints" ? "{1}" : sks == "string value" ? "abc" : "1", rng);
+            }
+          else
+            {
+              bad_kind = "vectorised-key-without-index";
+              bad_line = kw_line(key, "", val, rng);
+            }
+          lines.push_back(bad_line);
+          continue;
+        }
+      if (!shape_done && rng.coin(0.06))
+        {
+          shape_done = true;
+          if (rng.coin(0.3))
+            {
+              lines.push_back(kw_line("shape type", "", "None", rng));
+              model.shape_name = "none";
+            }
+          else
+            {
+              lines.push_back(kw_line("shape type", "", "Ellipsoid", rng));
+              lines.push_back(kw_line("Ellipsoid Parameters", "", "", rng));
+              lines.push_back(kw_line("radius-x (in mm)", "", "3", rng));
+              lines.push_back(kw_line("End", "", "", rng));
+              model.shape_name = "Ellipsoid";
+            }
+          continue;
+        }
+      KwLine k = random_valid_line(rng, model);
+      RefLine rl = ref_split(k.text);
+      if (rl.is_assignment)
+        {
+          if (rl.kw_raw != rl.kw)
+            ++respelled;
+          if (rl.has_index)
+            ++indexed;
+          if (rl.kw == "integer value" || rl.kw == "old int value" || rl.kw == "item integer")
+            ++aliases;
+        }
+      if (k.apply)
+        k.apply(model);
+      lines.push_back(k.text);
+    }
+  lines.push_back(kw_line("end test parameters", "", "", rng));
+  if (rng.coin(0.3))
+    lines.push_back("int value := 424242"); // after the stop key: must not be read
+  const std::string text = join_lines(lines);
+  const std::string expect = model.state_of_fields();
+  ctx.desc.add("mode", "keywords").add("sub", "test-parser-vs-reference").add("lines", static_cast<long>(lines.size()));
+  ctx.desc.add("bad_line", bad_kind).add("input_hash", hex_hash(text));
+  Result r = g_iso.run(ctx, "KeyParser::parse", "test parser, " + std::to_string(lines.size()) + " lines", [&](Result& rr) {
+    AllocScope guard;
+    TestParser p;
+    std::istringstream s(text);
+    bool ok = false;
+    try
+      {
+        ok = p.parse(s);
+      }
+    catch (const std::exception& e)
+      {
+        rr.status = 0;
+        rr.how = "exception";
+        return;
+      }
+    if (!ok)
+      {
+        rr.status = 0;
+        rr.how = "false";
+        return;
+      }
+    rr.status = 1;
+    rr.text = p.state();
+    if (!p.sizes_consistent())
+      rr.viol("keywords:vectors-not-sized-as-announced", "number of items = " + std::to_string(p.n_items) + ", state " + clip(rr.text, 600));
+    // what the parser prints for itself must parse back to the same state and print the same text
+    const std::string t1 = p.parameter_info();
+    TestParser q;
+    std::istringstream s1(t1);
+    bool ok1 = false;
+    try
+      {
+        ok1 = q.parse(s1);
+      }
+    catch (const std::exception&)
+      {}
+    rr.count("keyparser_own_text_reparsed");
+    if (!ok1)
+      rr.viol("keyparser-roundtrip-rejected:TestParser", "parameter_info() of the test parser is rejected when parsed again\n--- text:\n" + clip(t1));
+    else
+      {
+        const std::string st1 = q.state();
+        const std::string t2 = q.parameter_info();
+        bool jitter = false;
+        if (st1 != rr.text)
+          rr.viol("keyparser-roundtrip-state-differs:TestParser:" + first_differing_field(rr.text, st1),
+                  "state after parse  : " + clip(rr.text, 700) + "\nstate after re-parse: " + clip(st1, 700) + "\n--- printed text:\n" + clip(t1));
+        else if (t1 != t2 && !text_diff(t1, t2, jitter).empty() && !jitter)
+          rr.viol("keyparser-roundtrip-text-differs:TestParser", text_diff(t1, t2, jitter) + "\n--- first print:\n" + clip(t1));
+      }
+  });
+  report(ctx, r, text, "generated test-parser text");
+  ctx.count("keyword_texts_parsed");
+  if (!r.complete || !r.viols.empty())
+    {
+      ctx.nontrivial = true;
+      return;
+    }
+  if (bad_kind.empty())
+    {
+      if (r.status != 1)
+        ctx.violation("keywords:valid-text-rejected", "a text using only registered keywords (respelled), in-range indices and well-formed values is rejected ("
+                                                          + r.how + ")\n--- input:\n" + clip(text));
+      else if (r.text != expect)
+        ctx.violation("keywords:state-differs-from-reference:" + first_differing_field(expect, r.text),
+                      "expected " + clip(expect, 700) + "\ngot      " + clip(r.text, 700) + "\n--- input:\n" + clip(text));
+      else
+        {
+          ctx.count("keyword_lines_respelled_and_matched", respelled);
+          ctx.count("vectorised_lines_stored_at_index", indexed);
+          ctx.count("alias_lines_resolved", aliases);
+        }
+    }
+  else
+    {
+      ctx.count("bad_index_lines");
+      if (r.status == 1 && r.text != expect)
+        ctx.violation("keywords:bad-index-line-changes-state:" + bad_kind + ":" + first_differing_field(expect, r.text),
+                      "line '" + bad_line + "' was accepted; expected (line ignored) " + clip(expect, 700) + "\ngot " + clip(r.text, 700) + "\n--- input:\n"
+                          + clip(text));
+      else if (r.status == 1)
+        ctx.count("bad_index_lines_ignored");
+      else
+        ctx.count("bad_index_lines_rejected");
+    }
+  ctx.nontrivial = respelled + indexed + aliases > 0 || !bad_kind.empty();
+}
+
+void
+keywords_normaliser(Ctx& ctx)
+{
+  vf::Rng& rng = ctx.rng;
+  ctx.desc.add("mode", "keywords").add("sub", "normaliser-vs-reference");
+  static const std::string alphabet = "abcdefghijklmnopqrstuvwxyzABCDEFGHIJKLMNOPQRSTUVWXYZ0123456789    \t\t____!!!()-/%.,;:#*+'\"<>{}[]";
+  const int n = 60;
+  std::vector<std::string> in;
+  for (int i = 0; i < n; ++i)
+    {
+      std::string s;
+      const int len = static_cast<int>(rng.range(0, 40));
+      for (int k = 0; k < len; ++k)
+        s += alphabet[static_cast<size_t>(rng.range(0, static_cast<long>(alphabet.size()) - 1))];
+      in.push_back(s);
+    }
+  ctx.desc.add("strings", static_cast<long>(n)).add("input_hash", hex_hash(join_lines(in)));
+  Result r = g_iso.run(ctx, "standardise_interfile_keyword", "normaliser on " + std::to_string(n) + " strings", [&](Result& rr) {
+    for (auto& s : in)
+      {
+        const std::string got = standardise_interfile_keyword(s), want = ref_norm(s);
+        rr.count("normaliser_strings_compared");
+        if (got != want)
+          {
+            rr.viol("keywords:normaliser-differs-from-documentation", "standardise_interfile_keyword('" + s + "') = '" + got + "', documented rule gives '" + want + "'");
+            break;
+          }
+        if (standardise_interfile_keyword(got) != got)
+          {
+            rr.viol("keywords:normaliser-not-idempotent", "'" + s + "' -> '" + got + "' -> '" + standardise_interfile_keyword(got) + "'");
+            break;
+          }
+      }
+    rr.status = 1;
+  });
+  report(ctx, r, join_lines(in), "random keyword strings");
+  ctx.nontrivial = true;
+}
+
+// a header that is equivalent to the seed by the documented rules: keywords respelled, aliases used, vectorised lines of one
+// keyword given in another order
+std::string
+equivalent_header(const Seed& seed, vf::Rng& rng, long& n_alias, long& n_perm, long& n_respelled)
+{
+  static const std::map<std::string, std::string> alias_of = { { "tof mashing factor", "%TOF mashing factor" },
+                                                               { "maximum number of (unmashed) tof time bins", "Number of TOF time bins" },
+                                                               { "size of unmashed tof time bins (ps)", "Size of timing bin (ps)" },
+                                                               { "tof timing resolution (ps)", "timing resolution (ps)" },
+                                                               { "int value", "integer value" },
+                                                               { "item int", "item integer" } };
+  auto lines = split_lines(seed.text);
+  std::map<std::string, std::vector<size_t>> slots;
+  for (size_t i = 0; i < lines.size(); ++i)
+    {
+      RefLine r = ref_split(lines[i]);
+      if (!r.is_assignment)
+        continue;
+      auto a = alias_of.find(r.kw);
+      if (a != alias_of.end() && rng.coin(0.7))
+        {
+          lines[i] = a->second + lines[i].substr(r.kw_end);
+          ++n_alias;
+        }
+      if (r.has_index)
+        slots[r.kw].push_back(i);
+    }
+  for (auto& s : slots)
+    {
+      if (s.second.size() < 2 || !rng.coin(0.7))
+        continue;
+      // all indices must be distinct, otherwise the order matters
+      std::set<std::string> idx;
+      for (size_t i : s.second)
+        idx.insert(ref_split(lines[i]).index_raw);
+      if (idx.size() != s.second.size())
+        continue;
+      std::vector<std::string> l;
+      for (size_t i : s.second)
+        l.push_back(lines[i]);
+      rng.shuffle(l);
+      for (size_t k = 0; k < l.size(); ++k)
+        {
+          if (lines[s.second[k]] != l[k])
+            ++n_perm;
+          lines[s.second[k]] = l[k];
+        }
+    }
+  for (auto& l : lines)
+    {
+      RefLine r = ref_split(l);
+      if (!r.is_assignment || r.kw.empty() || !rng.coin(0.8))
+        continue;
+      l = decorate_keyword(r.kw_raw, rng) + l.substr(r.kw_end);
+      ++n_respelled;
+    }
+  return join_lines(lines);
+}
+
+void
+keywords_headers(Ctx& ctx)
+{
+  build_corpus(ctx);
+  static const std::vector<std::pair<std::string, int>> weights
+      = { { "image", 20 }, { "dynimage", 10 }, { "pdfs", 45 }, { "spect", 10 }, { "siemens", 5 }, { "multi", 5 }, { "kp", 5 } };
+  const Seed& seed = *pick_seed(ctx, weights);
+  Input in;
+  in.seed = &seed;
+  in.kinds = "equivalent-spelling";
+  in.entry_variant = static_cast<int>(ctx.rng.range(0, num_entry_variants(seed.family) - 1));
+  in.path = input_path(seed);
+  long n_alias = 0, n_perm = 0, n_resp = 0;
+  in.text = equivalent_header(seed, ctx.rng, n_alias, n_perm, n_resp);
+  const std::string entry = entry_name(seed.family, in.entry_variant);
+  ctx.desc.add("mode", "keywords").add("sub", "equivalent-header").add("seed", seed.name).add("entry", entry);
+  ctx.desc.add("aliases_used", n_alias).add("indexed_lines_moved", n_perm).add("keywords_respelled", n_resp).add("input_hash", hex_hash(in.text));
+  const std::pair<int, std::string> ref = seed_signature(ctx, seed, in.entry_variant);
+  spit(in.path, in.text);
+  Result r = g_iso.run(ctx, entry, "equivalent spelling of " + seed.name + " through " + entry, [&](Result& rr) {
+    std::string sig;
+    run_entry(rr, in, sig);
+    rr.text = sig;
+  });
+  report_alloc(r, entry, in);
+  report(ctx, r, in.text, "equivalent spelling of " + seed.name);
+  ctx.count("equivalent_headers_parsed");
+  if (!r.complete || !r.viols.empty() || ref.first != 1)
+    {
+      if (ref.first != 1)
+        ctx.count("equivalent_headers_seed_not_accepted");
+      ctx.nontrivial = !r.viols.empty();
+      return;
+    }
+  ctx.nontrivial = true;
+  const std::string what = std::string(n_alias ? "alias+" : "") + (n_perm ? "index-order+" : "") + "respelling";
+  if (r.status != 1)
+    ctx.violation("keywords:equivalent-header-rejected:" + seed.family + ":" + what,
+                  "the seed is accepted; the same header with " + std::to_string(n_alias) + " aliases, " + std::to_string(n_perm) + " vectorised lines reordered, "
+                      + std::to_string(n_resp) + " keywords respelled is not (" + r.how + ")\n--- input:\n" + clip(in.text));
+  else if (r.text != ref.second)
+    ctx.violation("keywords:equivalent-header-changes-result:" + seed.family + ":" + what,
+                  "seed gives " + clip(ref.second, 600) + "\nequivalent header gives " + clip(r.text, 600) + "\n--- input:\n" + clip(in.text));
+  else
+    {
+      ctx.count("equivalent_headers_same_result");
+      ctx.count("header_aliases_resolved", n_alias);
+      ctx.count("header_indexed_lines_reordered", n_perm);
+      ctx.count("header_keywords_respelled", n_resp);
+    }
+}
+
+void
+run_keywords_case(Ctx& ctx, long sub)
+{
+  const long k = sub % 10;
+  if (k < 5)
+    keywords_testparser(ctx);
+  else if (k < 6)
+    keywords_normaliser(ctx);
+  else
+    keywords_headers(ctx);
+}
+
+void
+run_case(Ctx& ctx)
+{
+  const char* m = std::getenv("VERIF_MODE");
+  std::string mode = m ? m : "";
+  long sub = ctx.idx;
+  if (mode.empty())
+    {
+      // no mode given: interleave the three modes
+      mode = ctx.idx % 10 == 0 ? "roundtrip" : ctx.idx % 10 == 1 ? "keywords" : "mutate";
+      sub = ctx.idx / 10;
+    }
+  if (mode == "roundtrip")
+    run_roundtrip_case(ctx, sub);
+  else if (mode == "keywords")
+    run_keywords_case(ctx, sub);
+  else if (mode == "mutate")
+    run_mutate_case(ctx);
+  else
+    throw std::runtime_error("unknown VERIF_MODE " + mode);
+}
+} // namespace
+
+int
+main(int argc, char** argv)
+{
+  vg::quiet();
+  return vf::verif_main(argc, argv, "C17", run_case);
+}
